@@ -386,6 +386,33 @@ def check_one_shot_state(model, rep, R='C12.state'):
     rep.inspect(n)
 
 
+def check_memoised(model, rep, R='C12.reset', only=None):
+    """a memoising decorator on anything that reads object state keeps answers across run / reset / rerun (and across objects that
+    hash alike); the evaluator does not model it, so every memoised function of the package that reads an attribute is reported"""
+    import ast
+    n = 0
+    found = 0
+    units = [(f'{fname}', mod, fn) for fname, (mod, fn) in model.functions.items()]
+    for cname, ci in model.classes.items():
+        for mem in ci.all_members():
+            units.append((mem.qualname, ci.module, mem.node))
+    for qual, mod, fn in units:
+        if only is not None and not any(k in mod for k in only):
+            continue
+        n += 1
+        decos = [ast.unparse(d) for d in fn.decorator_list if 'cache' in ast.unparse(d)]
+        if not decos:
+            continue
+        reads = sorted({ast.unparse(a)[:40] for a in ast.walk(fn) if isinstance(a, ast.Attribute) and isinstance(a.ctx, ast.Load)
+                        and not isinstance(a.value, ast.Call)})
+        if reads:
+            found += 1
+            rep.violation(R, f'{qual}:memoised', f'@{decos[0]} keeps the first answer while the function reads state ({reads[:3]}): a later call - another '
+                          f'instant, after reset, after an in-place unit conversion of the object read - gets the remembered value', f'{mod}:{fn.lineno}')
+    if not found:
+        rep.holds(R, 'functions:memoised', f'{n} functions and methods: none is memoised over object state')
+
+
 def check(model, rep):
     from checks.solver_common import absorb_arith, TIME_ARITH, EULER_ARITH, KIN_ARITH, TORQUE_ARITH
     absorb_arith(model, rep, 'C12.dep.arith', TIME_ARITH + EULER_ARITH, solver_log=True)      # a rerun starts from the same constants only if the step's arithmetic leaves them alone
@@ -402,6 +429,7 @@ def check(model, rep):
     check_reset(model, rep)
     check_stateless(model, rep)
     check_one_shot_state(model, rep)
+    check_memoised(model, rep)
     from sa.aliases import alias_findings
     found, nscan = alias_findings(model)
     for cname, f, ln, mod_, detail in found:
